@@ -61,8 +61,12 @@ class Routes:
         self.malt, self.converter, self.api, self.pb = _malt()
         self.opts = self.converter.ConversionOptions(recursive=True, optional_features=None)
         self.conv_cache = {}
-        self.tmp = None
         self.modn = 0
+        # every scratch file of this run - including the files malt writes for the code it generates -
+        # lives under one directory removed at exit (malt's own atexit removal does not run in forked workers)
+        self.tmp = tempfile.mkdtemp(prefix='c14_')
+        self._old_tempdir = tempfile.tempdir
+        tempfile.tempdir = self.tmp
 
     def substitute(self, b, via, way=None):
         f = getattr(builtins, b)
@@ -90,8 +94,6 @@ class Routes:
         raise ValueError(via)
 
     def tmpdir(self):
-        if self.tmp is None:
-            self.tmp = tempfile.mkdtemp(prefix='c14_')
         return self.tmp
 
     def load_module(self, src):
@@ -107,8 +109,8 @@ class Routes:
         return mod
 
     def cleanup(self):
-        if self.tmp:
-            shutil.rmtree(self.tmp, ignore_errors=True)
+        tempfile.tempdir = self._old_tempdir
+        shutil.rmtree(self.tmp, ignore_errors=True)
         for n in [n for n in sys.modules if n.startswith('c14gen_%d_' % os.getpid())]:
             del sys.modules[n]
 
